@@ -288,15 +288,15 @@ def rule_epoch_writers(ctx):
     prog = ctx.prog
     allowed_local = {PIN, UNPIN, REPIN_NC}
     nw = 0
+    cands = set()
     for name, b in sorted(prog.bodies.items()):
         has = any((c.target or "").startswith(AE) and (c.target or "")[len(AE):] in ("store", "compare_exchange", "swap")
                   for (_, _, c) in b.calls())
-        if not has:
-            continue
-        if name.startswith(AE):
-            continue
-        if name in prog.auto_inline():
-            continue      # a helper introduced by refactoring: judged inlined in its single caller
+        if has and not name.startswith(AE):
+            # a helper introduced by refactoring (or a closure) is judged inlined in the functions that reach it
+            cands.update(prog.path_roots(name))
+    for name in sorted(cands):
+        b = prog.body(name)
         r.functions.add(name)
         seen = set()
         for p in ctx.ex.paths(b):
